@@ -6,7 +6,11 @@
 // would make a run depend on more than its plan. This pool is a plain LIFO.
 package vpool
 
-import "sync"
+import (
+	"fmt"
+	"reflect"
+	"sync"
+)
 
 type Pool struct {
 	New   func() any
@@ -30,11 +34,40 @@ func (p *Pool) Get() any {
 	return nil
 }
 
+// DoublePuts counts Put calls that handed in a pointer the pool already holds:
+// the object would be given out twice, i.e. to two holders at once. Message of
+// the first one in DoublePutMsg. Reset by the engines between runs.
+var (
+	DoublePuts   int
+	DoublePutMsg string
+	dpMu         sync.Mutex
+)
+
+// ResetDoublePuts clears the double-Put record.
+func ResetDoublePuts() {
+	dpMu.Lock()
+	DoublePuts, DoublePutMsg = 0, ""
+	dpMu.Unlock()
+}
+
 func (p *Pool) Put(x any) {
 	if x == nil {
 		return
 	}
 	p.mu.Lock()
+	if v := reflect.ValueOf(x); v.Kind() == reflect.Ptr {
+		for _, y := range p.items {
+			if w := reflect.ValueOf(y); w.Kind() == reflect.Ptr && w.Pointer() == v.Pointer() {
+				dpMu.Lock()
+				DoublePuts++
+				if DoublePutMsg == "" {
+					DoublePutMsg = fmt.Sprintf("a %T was put into its pool while the pool already held it", x)
+				}
+				dpMu.Unlock()
+				break
+			}
+		}
+	}
 	if len(p.items) < 4096 {
 		p.items = append(p.items, x)
 	}
